@@ -658,6 +658,31 @@ func runC04(c *ctx) {
 		"a and b", "a or b", "a in b", "and or or", "a\tand\nb", "a  .  b", "a[ 0 ]", "a { b : c }", "a ^ ( b )", "$f ( 1 )", "a?b:c", "a ? b : c", "$v:=1", "$v := 1", "a~>b", "a ~> b", "a..b", "[1 .. 2]", "[1..2]", "a . . b"} {
 		c.parseCompare(s, "lexical")
 	}
+	// "/ starts a regular expression where an operand is expected and is division after an operand", applied as an oracle of
+	// its own (F36: after an opening bracket, a unary minus or the opening pipe of a transform an operand is expected; the
+	// implementation and the model used to agree on rejecting these texts, so comparing them with each other said nothing)
+	for _, s := range []string{"[/b/]", "(/b/)", "{\"k\": /b/}", "[/b/, a / b]", "-/b/", "|/b/|{}|", "(/b/)(\"xby\")", "[ /b/i ]", "[[/b/]]", "(/b/; 2)", "{\"k\": [/b/]}", "-(/b/)", "[-/b/]",
+		"$f(/b/)", "a ~> /b/", "a = /b/", "[1, /b/]", "a[/b/]", "a ? /b/ : /c/", "$v := /b/", "a and /b/", "a & /b/", "a.(/b/)"} {
+		c.note("slash-regex\x00"+s, "slash-oracle", true)
+		e, err := jsonata.Compile(s)
+		if err != nil {
+			c.disagree(Disagreement{Kind: "slash-where-an-operand-is-expected", Prog: s, Go: "compile error: " + err.Error(), Model: "a regular expression literal (the statement's rule)"})
+		} else if !strings.Contains(e.String(), "/b/") && !strings.Contains(e.String(), "/(?i)b/") {
+			c.disagree(Disagreement{Kind: "slash-where-an-operand-is-expected", Prog: s, Go: e.String(), Model: "a tree that contains the regular expression /b/"})
+		}
+		c.parseCompare(s, "lexical")
+	}
+	for _, s := range []string{"a / 2", "(a) / 2", "a[0] / 2", "or / 2", "and / 2", "in / 2", "o.in / 2", "a + or / 2", "* / 2", "** / 2", "o.* / 2", "a / 2 / 4", "and/2/4", "\"s\" / 2", "1 / 2", "$v / 2",
+		"true / 2", "null / 2", "`a b` / 2", "[a] / 2", "{\"a\": 1} / 2", "$f() / 2", "a^(b) / 2", "a{b: c} / 2", "-a / 2"} {
+		c.note("slash-div\x00"+s, "slash-oracle", true)
+		e, err := jsonata.Compile(s)
+		if err != nil {
+			c.disagree(Disagreement{Kind: "slash-after-an-operand", Prog: s, Go: "compile error: " + err.Error(), Model: "a division (the statement's rule)"})
+		} else if !strings.Contains(e.String(), " / 2") {
+			c.disagree(Disagreement{Kind: "slash-after-an-operand", Prog: s, Go: e.String(), Model: "a tree whose printed form divides by 2"})
+		}
+		c.parseCompare(s, "lexical")
+	}
 }
 
 // ---- C11 ------------------------------------------------------------------------
